@@ -12,8 +12,12 @@ pub struct Trace {
     pub num_to_str: Vec<f64>,
     /// arguments of `scalar::string_to_number`
     pub str_to_num: Vec<String>,
+    /// arguments of `scalar::xpath_round` (round(), substring())
+    pub rounded: Vec<f64>,
     /// "following-from-attr-or-ns", "preceding-from-attr-or-ns": a step on
     /// that axis was evaluated with an attribute or namespace node as context;
+    /// "lang-on-namespace-node": lang() was called with a namespace node as
+    /// context node;
     /// "ns-order-used": the document order of a node-set with two or more
     /// nodes including a namespace node was used (first node / positional
     /// filter of a filter expression)
@@ -55,6 +59,14 @@ pub(crate) fn note_num(v: f64) {
     TRACE.with(|t| {
         if let Some(tr) = t.borrow_mut().as_mut() {
             tr.num_to_str.push(v);
+        }
+    });
+}
+
+pub(crate) fn note_round(v: f64) {
+    TRACE.with(|t| {
+        if let Some(tr) = t.borrow_mut().as_mut() {
+            tr.rounded.push(v);
         }
     });
 }
